@@ -44,7 +44,9 @@ REQUIRED_TAGS = ['form=check', 'form=sections', 'form=to_index', 'form=from_inde
                  'form=edge_surfaces2', 'form=edge_surfaces6', 'form=extrude', 'form=thicken', 'sel=keyword',
                  'sel=mixed', 'unwrap=false', 'pardim=1', 'pardim=2', 'pardim=3', 'rational', 'periodic-dir',
                  'loop=asgiven', 'loop=reordered', 'loop=reversed-member', 'loop=open', 'cpc=knot', 'cpc=between',
-                 'cpc=outside', 'oracle-only', 'raises', 'corners=F', 'faces=None']
+                 'cpc=outside', 'oracle-only', 'raises', 'corners=F', 'faces=None',
+                 'same-distinct-knots-different-mult', 'same-distinct-knots-different-mult/2',
+                 'same-distinct-knots-different-mult/4']
 KNOWN_LABELS = ['edge-curves-homogeneous-endpoint-test', 'coons-rational-unequal-corner-weights',
                 'edge-surfaces-6-rational-refused', 'const-par-curve-periodic-end',
                 'const-par-curve-periodic-few-functions']
@@ -220,7 +222,40 @@ def _curve_between(rng, basis, P, Q, dim, rational, w0=1.0, w1=1.0):
     return {'bases': [basis], 'cps': rows, 'rational': bool(rational)}
 
 
-def _loop(rng, identical, wclass='none'):
+def _mult_pair(rng):
+    """Two open bases with the same order, the same number of functions and the same DISTINCT knot values but
+    different multiplicity patterns, e.g. order 3: [0,0,0,1,1,2,3,3,3] and [0,0,0,1,2,2,3,3,3]
+    (`knots(0)` of the two is identical; the bases are not)."""
+    p = rng.choice([3, 3, 4])
+    nint = rng.choice([2, 2, 3])
+    step = rng.choice([0.5, 1.0, 2.0])
+    start = rng.choice([0.0, 0.0, -1.0, 2.5])
+    uniq = [start + step * i for i in range(nint + 2)]       # symmetric: reversal keeps the distinct values
+    while True:
+        ma = [rng.randint(1, p - 1) for _ in range(nint)]
+        mb = list(ma)
+        rng.shuffle(mb)
+        if mb != ma:
+            break
+
+    def mk(ms):
+        kn = [uniq[0]] * p
+        for u, m in zip(uniq[1:-1], ms):
+            kn += [u] * m
+        return {'order': p, 'knots': kn + [uniq[-1]] * p, 'periodic': -1}
+    return mk(ma), mk(mb)
+
+
+def _same_distinct_diff_mult(b1, b2):
+    """Equal order, equal size, equal distinct knots after reparametrisation to [0,1], different knot vectors."""
+    def unit(b):
+        a, e = _ends(b)
+        return [(k - a) / (e - a) for k in b['knots']]
+    k1, k2 = unit(b1), unit(b2)
+    return (b1['order'] == b2['order'] and len(k1) == len(k2) and sorted(set(k1)) == sorted(set(k2)) and k1 != k2)
+
+
+def _loop(rng, identical, wclass='none', multpair=False):
     """Four curves forming a directed closed loop bottom, right, top, left (as coons_patch wants them).
     identical: opposite curves share a basis (model scope).  wclass: 'none' (non-rational),
     'unit' (rational, corner weights 1), 'equal' (rational, a common weight per corner),
@@ -235,6 +270,9 @@ def _loop(rng, identical, wclass='none'):
     if identical:
         b1, b2 = basis(), basis()
         bs = [b1, b2, b1, b2]      # bottom, right', top', left' (all in the positive direction)
+    elif multpair:
+        (b1, b3), (b2, b4) = _mult_pair(rng), _mult_pair(rng)
+        bs = [b1, b2, b3, b4]      # opposite curves: same order / size / distinct knots, other multiplicities
     else:
         bs = [basis() for _ in range(4)]
     cw = {'equal': [rng.choice([0.5, 1.0, 2.0, 1.5]) for _ in range(4)]}.get(wclass, [1.0] * 4)
@@ -366,6 +404,7 @@ def generate(rng, tier):
         a, e = _ends(pb)
         specs.append({'form': 'cpc', 'obj': o, 'knot': e if x == 'end' else a + (e - a) * 0.25, 'direction': 0, 'd': 0})
         specs.append({'form': 'cpc', 'obj': o, 'knot': a + (e - a) * 0.625, 'direction': 'u', 'd': 0})
+        specs.append({'form': 'cpc', 'obj': o, 'knot': a, 'direction': 0, 'd': 0})      # the seam of a smooth periodic direction
     # --- edge_curves, two curves -------------------------------------------------------------------------
     for i in range(8 if quick else 60):
         b = _cont_basis(rng, rng.randint(2, 4), rng.randint(0, 2))
@@ -379,6 +418,18 @@ def generate(rng, tier):
         # differing bases: oracle only
         c3 = _rand_obj(rng, 1, periodic_prob=0.0, pmin=2, rational=rng.random() < 0.4, dim=rng.choice([2, 3]), cont=True)
         specs.append({'form': 'edge_curves', 'curves': [c1, c3], 'oracle_only': True})
+    # same order, same number of control points, same distinct knots, different multiplicity patterns (both orders)
+    for i in range(4 if quick else 30):
+        ba, bb = _mult_pair(rng)
+        dim = rng.choice([2, 3])
+        ra, rb = rng.random() < 0.3, rng.random() < 0.3
+        ca = {'bases': [ba], 'cps': gen.rand_cps(rng, [gen.basis_info(ba)['n']], dim + ra, ra), 'rational': ra}
+        cb = {'bases': [bb], 'cps': gen.rand_cps(rng, [gen.basis_info(bb)['n']], dim + rb, rb), 'rational': rb}
+        if i % 3 == 2:      # another domain, same distinct knots after reparam
+            a0 = _ends(bb)[0]
+            cb = dict(cb, bases=[dict(bb, knots=[2.0 * (k - a0) + 5.0 for k in bb['knots']])])
+        specs.append({'form': 'edge_curves', 'curves': [ca, cb], 'oracle_only': True})
+        specs.append({'form': 'edge_curves', 'curves': [cb, ca], 'oracle_only': True})
     specs.append({'form': 'edge_curves', 'curves': [_rand_obj(rng, 1, periodic_prob=0.0, pmin=2, cont=True) for _ in range(3)], 'oracle_only': False})
     # --- edge_curves, four curves -----------------------------------------------------------------------
     nloops = 2 if quick else 8
@@ -397,6 +448,15 @@ def generate(rng, tier):
         for perm, flips in arrs:
             specs.append({'form': 'edge_curves', 'curves': _arrange(loop, perm, flips), 'oracle_only': True,
                           'perm': perm, 'flips': flips, 'wclass': wclass, 'closed': True})
+    # loops whose opposite curves share order / size / distinct knots but not the multiplicities
+    for li in range(2 if quick else 12):
+        wclass = ['none', 'unit', 'equal'][li % 3]
+        loop = _loop(rng, False, wclass, multpair=True)
+        arrs = [ALL_ARR[0]] + rng.sample(ALL_ARR, 7 if quick else 40) + rng.sample(ROT_ARR, 4)
+        for perm, flips in arrs:
+            specs.append({'form': 'edge_curves', 'curves': _arrange(loop, perm, flips), 'oracle_only': True,
+                          'perm': perm, 'flips': flips, 'wclass': wclass, 'closed': True})
+        specs.append({'form': 'coons', 'curves': loop, 'wclass': wclass, 'oracle_only': True})
     # rational loops whose corner weights differ between the two curves meeting there (same geometry)
     for li in range(2 if quick else 10):
         loop = _loop(rng, li % 2 == 0, 'rescaled')
@@ -882,7 +942,11 @@ def classify(s, res=None):
         b = s['obj']['bases'][s['d']]
         info = gen.basis_info(b)
         if abs(s['knot'] - info['end']) < gen.TOL:
-            return 'const-par-curve-periodic-end'
+            # the known defect is the IndexError; any other failure at the seam is a new finding
+            msgs = (res or {}).get('oracle') or []
+            if res is None or any('raised IndexError' in m for m in msgs):
+                return 'const-par-curve-periodic-end'
+            return None
         if info['n'] < info['p'] + info['k']:
             return 'const-par-curve-periodic-few-functions'     # region of the periodic insert_knot defects (C04)
     return None
@@ -934,6 +998,15 @@ def tags(s, res):
         out.append('weights=' + s.get('wclass', 'none'))
     if s.get('oracle_only'):
         out.append('oracle-only')
+    if f in ('edge_curves', 'coons') and len(s['curves']) in (2, 4):
+        bs = [c['bases'][0] for c in s['curves']]
+        def rv(b):
+            a, e = _ends(b)
+            return dict(b, knots=[a + e - k for k in reversed(b['knots'])])
+        if any(_same_distinct_diff_mult(x, y) or _same_distinct_diff_mult(x, rv(y))
+               for i, x in enumerate(bs) for y in bs[i + 1:]):
+            out.append('same-distinct-knots-different-mult')
+            out.append('same-distinct-knots-different-mult/%d' % len(bs))
     if f == 'faces' and any(b['periodic'] >= 0 for b in s['obj']['bases']):
         out.append('faces=None')
     if res is not None and isinstance(res.get('impl'), Err):
